@@ -190,5 +190,14 @@ class TimerModel:
         self.in_pass = False
         return bad
 
+    def abort_pass(self):
+        """The pass was cut short by an exception that left a running call and reached
+        the caller of the pass (task.Clock has no error handler: a failing call's
+        exception leaves advance()).  The statements say nothing about the calls that
+        were due and had not run yet: no verdict for this pass.  They are still
+        pending, so the next pass that completes has to run them."""
+        assert self.in_pass
+        self.in_pass = False
+
     def unfinished(self):
         return [c.cid for c in self.calls.values() if c.state == PENDING]
